@@ -4,6 +4,7 @@ import PyndlProofs.Bytes
 import PyndlProofs.Chunking
 import PyndlProofs.Laws
 import PyndlProofs.Continue
+import PyndlProofs.Bounds32
 
 set_option linter.unusedSectionVars false
 set_option linter.unusedSimpArgs false
@@ -249,13 +250,32 @@ theorem chunk_nonempty {α : Type} (xs : List α) (per j : Nat) (hp : 1 ≤ per)
   simp at this
   omega
 
+theorem window_width (per j : Nat) : (j + 1) * per - j * per = per := by
+  rw [Nat.add_mul, Nat.one_mul, Nat.add_sub_cancel_left]
+
+theorem window_no_overflow (per j : Nat) (hU : per < 4294967296) :
+    ¬ ((j + 1) * per < j * per ∨ 4294967296 ≤ (j + 1) * per - j * per) := by
+  rw [window_width]
+  have : j * per ≤ (j + 1) * per := Nat.mul_le_mul_right _ (Nat.le_succ j)
+  omega
+
+/-- **`events_per_file ≥ 2³²`: every conversion job raises `OverflowError`**
+    (the header estimate `stop - start` does not fit `to_bytes(4)`) -/
+theorem writeEvents_overflow (magic version : Nat) (p : DupPolicy) (ids : List (Event Nat Nat)) (per j : Nat)
+    (hU : 4294967296 ≤ per) :
+    writeEvents magic version p ids (j * per) ((j + 1) * per) = (none, .overflow) := by
+  unfold writeEvents
+  rw [window_width, if_pos (Or.inr hU)]
+
 /-- `write_events` for a non-empty window leaves exactly the encoded window -/
 theorem writeEvents_chunk (magic version : Nat) (p : DupPolicy) (ids ids' : List (Event Nat Nat))
-    (h : applyPolicyAll p ids = some ids') (per j : Nat) (hne : chunkOf per ids' j ≠ []) :
+    (h : applyPolicyAll p ids = some ids') (per j : Nat) (hU : per < 4294967296)
+    (hne : chunkOf per ids' j ≠ []) :
     ∃ r, writeEvents magic version p ids (j * per) ((j + 1) * per)
         = (some (encodeChunk magic version (chunkOf per ids' j)), r) ∧
       (r = .ok (chunkOf per ids' j).length ∨ r = .stopped (chunkOf per ids' j).length) := by
   unfold writeEvents
+  rw [if_neg (window_no_overflow per j hU)]
   rw [windowEvents_ok p ids ids' h per j]
   have hlen : (chunkOf per ids' j).length ≠ 0 := fun e => hne (List.length_eq_zero_iff.mp e)
   simp only [hlen, if_false]
@@ -264,7 +284,8 @@ theorem writeEvents_chunk (magic version : Nat) (p : DupPolicy) (ids ids' : List
   · exact ⟨_, rfl, Or.inl rfl⟩
 
 theorem makeChunks_go_ok (magic version : Nat) (p : DupPolicy) (ids ids' : List (Event Nat Nat))
-    (h : applyPolicyAll p ids = some ids') (per : Nat) (fuel j : Nat) (files : List Bytes) (total : Nat)
+    (h : applyPolicyAll p ids = some ids') (per : Nat) (hU : per < 4294967296)
+    (fuel j : Nat) (files : List Bytes) (total : Nat)
     (hne : ∀ k, j ≤ k → k < j + fuel → chunkOf per ids' k ≠ []) :
     makeChunks.go magic version p ids per fuel j files total
       = .ok (files.reverse ++ (List.range' j fuel).map (fun k => encodeChunk magic version (chunkOf per ids' k)),
@@ -272,7 +293,7 @@ theorem makeChunks_go_ok (magic version : Nat) (p : DupPolicy) (ids ids' : List 
   induction fuel generalizing j files total with
   | zero => simp [makeChunks.go]
   | succ fuel ih =>
-    obtain ⟨r, hw, hr⟩ := writeEvents_chunk magic version p ids ids' h per j (hne j (Nat.le_refl _) (by omega))
+    obtain ⟨r, hw, hr⟩ := writeEvents_chunk magic version p ids ids' h per j hU (hne j (Nat.le_refl _) (by omega))
     simp only [makeChunks.go, hw]
     rcases hr with rfl | rfl
     · simp only
@@ -293,13 +314,14 @@ theorem sum_chunk_lengths {α : Type} (xs : List α) (per : Nat) (hp : 1 ≤ per
     numeric order are the encoded windows of the policy-processed events, and
     the reported count is the number of events -/
 theorem makeChunks_ok (magic version : Nat) (p : DupPolicy) (ids ids' : List (Event Nat Nat))
-    (h : applyPolicyAll p ids = some ids') (per : Nat) (hp : 1 ≤ per) :
+    (h : applyPolicyAll p ids = some ids') (per : Nat) (hp : 1 ≤ per) (hU : per < 4294967296) :
     makeChunks magic version p ids per
       = .ok ((List.range (nChunks ids.length per)).map (fun k => encodeChunk magic version (chunkOf per ids' k)),
              ids.length) := by
   unfold makeChunks
+  rw [if_neg (by omega)]
   have hl := applyPolicyAll_length p ids ids' h
-  rw [makeChunks_go_ok magic version p ids ids' h per _ 0 [] 0
+  rw [makeChunks_go_ok magic version p ids ids' h per hU _ 0 [] 0
     (fun k _ hk => chunk_nonempty ids' per k hp (by rw [hl]; omega))]
   simp only [List.reverse_nil, List.nil_append, Nat.zero_add, List.range_eq_range']
   congr 2
@@ -309,7 +331,7 @@ theorem makeChunks_ok (magic version : Nat) (p : DupPolicy) (ids ids' : List (Ev
 
 /-- the policy rejects ⇒ the conversion raises `ValueError` -/
 theorem makeChunks_go_error (magic version : Nat) (p : DupPolicy) (ids : List (Event Nat Nat)) (per fuel j : Nat)
-    (files : List Bytes) (total : Nat)
+    (hU : per < 4294967296) (files : List Bytes) (total : Nat)
     (hbad : ∃ k, j ≤ k ∧ k < j + fuel ∧ ∃ i, windowEvents p ids (k * per) ((k + 1) * per) = .error i) :
     makeChunks.go magic version p ids per fuel j files total = .error .value := by
   induction fuel generalizing j files total with
@@ -317,15 +339,17 @@ theorem makeChunks_go_error (magic version : Nat) (p : DupPolicy) (ids : List (E
   | succ fuel ih =>
     simp only [makeChunks.go]
     cases hw : windowEvents p ids (j * per) ((j + 1) * per) with
-    | error i => simp [writeEvents, hw]
+    | error i => simp [writeEvents, hw, if_neg (window_no_overflow per j hU)]
     | ok win =>
       have hrest : ∃ k, j + 1 ≤ k ∧ k < j + 1 + fuel ∧ ∃ i, windowEvents p ids (k * per) ((k + 1) * per) = .error i := by
         obtain ⟨k, h1, h2, i, hi⟩ := hbad
         by_cases hk : k = j
         · subst hk; rw [hw] at hi; cases hi
         · exact ⟨k, by omega, by omega, i, hi⟩
-      simp only [writeEvents, hw]
+      simp only [writeEvents, hw, if_neg (window_no_overflow per j hU)]
       split
+      · rename_i heq
+        split at heq <;> [skip; split at heq] <;> simp at heq
       · rfl
       · exact ih (j + 1) _ _ hrest
       · exact ih (j + 1) _ _ hrest
@@ -458,6 +482,619 @@ open List
 
 variable {R : Type} [CommRing R]
 
+/-! ## a rejected duplicate anywhere in the file makes the conversion raise -/
+
+theorem applyPolicyAll_none_iff {ι κ : Type} [DecidableEq ι] [DecidableEq κ] (p : DupPolicy)
+    (xs : List (Event ι κ)) : applyPolicyAll p xs = none ↔ ∃ e ∈ xs, applyPolicy p e = none := by
+  induction xs with
+  | nil => simp [applyPolicyAll]
+  | cons x xs ih =>
+    simp only [applyPolicyAll, List.mem_cons, exists_eq_or_imp]
+    cases h1 : applyPolicy p x with
+    | none => simp
+    | some x' =>
+      simp only [reduceCtorEq, false_or]
+      cases h2 : applyPolicyAll p xs with
+      | none => simp only [true_iff]; exact ih.mp h2
+      | some r =>
+        simp only [reduceCtorEq, false_iff]
+        intro hx
+        have := ih.mpr hx
+        rw [h2] at this; cases this
+
+theorem windowEvents_go_error (p : DupPolicy) (win : List (Event Nat Nat)) (idx : Nat)
+    (h : applyPolicyAll p win = none) : ∃ i, windowEvents.go p idx win = .error i := by
+  induction win generalizing idx with
+  | nil => simp [applyPolicyAll] at h
+  | cons e win ih =>
+    simp only [applyPolicyAll] at h
+    cases h1 : applyPolicy p e with
+    | none => exact ⟨idx, by simp [windowEvents.go, h1]⟩
+    | some e' =>
+      simp only [h1] at h
+      cases h2 : applyPolicyAll p win with
+      | some r => simp [h2] at h
+      | none =>
+        obtain ⟨i, hi⟩ := ih (idx + 1) h2
+        exact ⟨i, by simp [windowEvents.go, h1, hi]⟩
+
+theorem windowEvents_go_some (p : DupPolicy) (win win' : List (Event Nat Nat)) (idx : Nat)
+    (h : windowEvents.go p idx win = .ok win') : applyPolicyAll p win = some win' := by
+  cases hp : applyPolicyAll p win with
+  | none =>
+    obtain ⟨i, hi⟩ := windowEvents_go_error p win idx hp
+    rw [hi] at h; cases h
+  | some r =>
+    rw [windowEvents_go_ok p win r idx hp] at h
+    cases h; rfl
+
+theorem mem_window {α : Type} (xs : List α) (i per : Nat) (hper : 0 < per) (hi : i < xs.length) :
+    xs[i] ∈ (xs.drop (i / per * per)).take per := by
+  have hdm := Nat.div_add_mod i per
+  have hml := Nat.mod_lt i hper
+  have hmul : per * (i / per) = i / per * per := Nat.mul_comm _ _
+  rw [List.mem_iff_getElem]
+  refine ⟨i % per, ?_, ?_⟩
+  · simp only [List.length_take, List.length_drop]; omega
+  · simp only [List.getElem_take, List.getElem_drop]
+    congr 1; omega
+
+/-- **the conversion stage raises `ValueError`** whenever the duplicate policy
+    rejects some event of the file — wherever it stands, whatever the chunk size -/
+theorem makeChunks_error (magic version : Nat) (p : DupPolicy) (ids : List (Event Nat Nat)) (per : Nat)
+    (hp : 1 ≤ per) (hU : per < 4294967296) (h : applyPolicyAll p ids = none) :
+    makeChunks magic version p ids per = .error .value := by
+  obtain ⟨e, he, hpe⟩ := (applyPolicyAll_none_iff p ids).mp h
+  obtain ⟨i, hi, rfl⟩ := List.getElem_of_mem he
+  unfold makeChunks
+  rw [if_neg (by omega)]
+  apply makeChunks_go_error magic version p ids per _ 0 hU
+  refine ⟨i / per, Nat.zero_le _, ?_, ?_⟩
+  · rw [Nat.zero_add]
+    unfold nChunks
+    have h1 : i / per * per ≤ i := Nat.div_mul_le_self i per
+    have h2 : (i / per + 1) * per ≤ ids.length + per - 1 := by
+      have : (i / per + 1) * per = i / per * per + per := by ring
+      omega
+    exact (Nat.le_div_iff_mul_le (by omega)).mpr h2
+  · unfold windowEvents
+    rw [window_width]
+    apply windowEvents_go_error
+    exact (applyPolicyAll_none_iff p _).mpr ⟨ids[i], mem_window ids i per (by omega) hi, hpe⟩
+
+/-- `events_per_file ≥ 2³²` ⇒ `OverflowError`, for EVERY event file (also one
+    with zero events: job 0 is always submitted) and every policy -/
+theorem makeChunks_overflow (magic version : Nat) (p : DupPolicy) (ids : List (Event Nat Nat)) (per : Nat)
+    (hU : 4294967296 ≤ per) : makeChunks magic version p ids per = .error .other := by
+  unfold makeChunks
+  rw [if_pos hU]
+
+/-! ## `write_events` with an arbitrary window -/
+
+/-- **what `write_events(start, stop)` leaves on disk decodes to the window**:
+    for `start ≤ stop`, `stop - start < 2³²` and 32-bit events, a file that is
+    left behind holds exactly the policy-processed events `[start, stop)` of the
+    stream (fewer when the stream ends early: header count rewritten), and the
+    Python reader returns them -/
+theorem writeEvents_window_general (magic version : Nat) (hm : magic < 4294967296) (hv : version < 4294967296)
+    (p : DupPolicy) (es : List (Event Nat Nat)) (start stop : Nat) (hle : start ≤ stop)
+    (hfit : stop - start < 4294967296) (hwf : Wf32 es) (bytes : Bytes) (r : WriteResult)
+    (h : writeEvents magic version p es start stop = (some bytes, r)) :
+    ∃ win, windowEvents p es start stop = .ok win ∧
+      applyPolicyAll p ((es.drop start).take (stop - start)) = some win ∧ win ≠ [] ∧
+      bytes = encodeChunk magic version win ∧
+      decodeChunkPy magic version bytes = .ok win ∧
+      (r = .ok win.length ∨ r = .stopped win.length) := by
+  unfold writeEvents at h
+  rw [if_neg (by omega)] at h
+  cases hw : windowEvents p es start stop with
+  | error i => rw [hw] at h; cases h
+  | ok win =>
+    rw [hw] at h
+    have hpa : applyPolicyAll p ((es.drop start).take (stop - start)) = some win := by
+      unfold windowEvents at hw
+      exact windowEvents_go_some p _ win start hw
+    have hlen := applyPolicyAll_length p _ win hpa
+    have hwl : win.length < 4294967296 := by
+      rw [hlen, List.length_take]; omega
+    have hwwf : Wf32 win := by
+      intro e' he'
+      obtain ⟨e, he, hpe⟩ := applyPolicyAll_mem p _ win hpa e' he'
+      have hees : e ∈ es := List.mem_of_mem_drop (List.mem_of_mem_take he)
+      obtain ⟨s1, s2, s3, s4⟩ := applyPolicy_sub p e e' hpe
+      have hw := hwf e hees
+      exact ⟨fun i hi => hw.cues i ((s1 i).mp hi), fun i hi => hw.outcomes i ((s2 i).mp hi),
+        by have := hw.ncues; omega, by have := hw.nouts; omega⟩
+    have hdec := decodeChunkPy_encodeChunk magic version hm hv win hwl hwwf
+    simp only at h
+    split at h
+    · cases h
+    · rename_i hne
+      have hne' : win ≠ [] := fun e => hne (by rw [e]; rfl)
+      split at h
+      · simp only [Prod.mk.injEq, Option.some.injEq] at h
+        obtain ⟨hb, hr⟩ := h
+        exact ⟨win, rfl, hpa, hne', hb.symm, by rw [← hb]; exact hdec, Or.inr hr.symm⟩
+      · simp only [Prod.mk.injEq, Option.some.injEq] at h
+        obtain ⟨hb, hr⟩ := h
+        exact ⟨win, rfl, hpa, hne', hb.symm, by rw [← hb]; exact hdec, Or.inl hr.symm⟩
+
+/-- outside these windows `write_events` raises `OverflowError` before it looks at
+    any event (`to_bytes(stop - start)`: negative, or too big) -/
+theorem writeEvents_overflow_of (magic version : Nat) (p : DupPolicy) (es : List (Event Nat Nat))
+    (start stop : Nat) (h : stop < start ∨ 4294967296 ≤ stop - start) :
+    writeEvents magic version p es start stop = (none, .overflow) := by
+  unfold writeEvents
+  rw [if_pos h]
+
+/-! ## the 32-bit OpenMP parts -/
+
+/-- **no wrap-around**: with `n_outcomes + n_outcomes_per_job < 2³²` the parts
+    computed in `unsigned int` arithmetic are the unbounded ones -/
+theorem ompParts32_eq {α : Type} (xs : List α) (chunk : Nat) (hc : 1 ≤ chunk)
+    (hfit : xs.length + chunk < 4294967296) : ompParts32 xs chunk = ompParts xs chunk := by
+  have hn : (UInt32.ofNat xs.length).toNat = xs.length := by
+    rw [UInt32.toNat_ofNat']; exact Nat.mod_eq_of_lt (by omega)
+  have hk : (UInt32.ofNat chunk).toNat = chunk := by
+    rw [UInt32.toNat_ofNat']; exact Nat.mod_eq_of_lt (by omega)
+  have h := ompBounds32_eq (UInt32.ofNat xs.length) (UInt32.ofNat chunk) (by rw [hk]; exact hc)
+    (by rw [hn, hk]; exact hfit)
+  rw [hn, hk] at h
+  unfold ompParts32 ompParts
+  rw [← h, List.map_map]
+  rfl
+
+theorem learnOpenmpSeq32_eq (alpha β₁ β₂ lam : R) (nCues : Nat) (files : List (List (Event Nat Nat)))
+    (allOutcomes : List Nat) (chunk : Nat) (hc : 1 ≤ chunk)
+    (hfit : allOutcomes.length + chunk < 4294967296) (w : Array R) :
+    learnOpenmpSeq32 alpha β₁ β₂ lam nCues files allOutcomes chunk w
+      = learnOpenmpSeq alpha β₁ β₂ lam nCues files allOutcomes chunk w := by
+  unfold learnOpenmpSeq32 learnOpenmpSeq
+  rw [ompParts32_eq allOutcomes chunk hc hfit]
+
+end Pyndl
+
+namespace Pyndl
+open List
+
+variable {R : Type} [CommRing R]
+
+/-! ## the specification does not see the order of cues / outcomes inside an event -/
+
+theorem rwStep_perm {ι κ : Type} [DecidableEq ι] [DecidableEq κ] (α : ι → R) (β₁ β₂ lam : R) (W : κ → ι → R)
+    (e e' : Event ι κ) (hc : e.cues ~ e'.cues) (ho : e.outcomes ~ e'.outcomes) :
+    rwStep α β₁ β₂ lam W e = rwStep α β₁ β₂ lam W e' := by
+  funext o
+  simp only [rwStep]
+  have : decide (o ∈ e.outcomes) = decide (o ∈ e'.outcomes) := by
+    apply decide_eq_decide.mpr; exact ho.mem_iff
+  rw [this]
+  exact rwRow_perm α β₁ β₂ lam (W o) hc _
+
+/-- **any per-event order**: events that agree up to the order of their cues and
+    of their outcomes (e.g. two iteration orders of Python's `set`) give the same
+    weights -/
+theorem rwLearn_perm_events {ι κ : Type} [DecidableEq ι] [DecidableEq κ] (α : ι → R) (β₁ β₂ lam : R)
+    (W : κ → ι → R) (es es' : List (Event ι κ))
+    (h : List.Forall₂ (fun a b => a.cues ~ b.cues ∧ a.outcomes ~ b.outcomes) es es') :
+    rwLearn α β₁ β₂ lam W es = rwLearn α β₁ β₂ lam W es' := by
+  induction h generalizing W with
+  | nil => rfl
+  | cons hab _ ih =>
+    rw [rwLearn_cons, rwLearn_cons, rwStep_perm α β₁ β₂ lam W _ _ hab.1 hab.2]
+    exact ih _
+
+theorem rwLearn_map_reorder {ι κ : Type} [DecidableEq ι] [DecidableEq κ] (α : ι → R) (β₁ β₂ lam : R)
+    (W : κ → ι → R) (ρ : Event ι κ → Event ι κ)
+    (hρ : ∀ e, (ρ e).cues ~ e.cues ∧ (ρ e).outcomes ~ e.outcomes) (es : List (Event ι κ)) :
+    rwLearn α β₁ β₂ lam W (es.map ρ) = rwLearn α β₁ β₂ lam W es := by
+  apply rwLearn_perm_events
+  induction es with
+  | nil => exact List.Forall₂.nil
+  | cons e es ih => exact List.Forall₂.cons (hρ e) ih
+
+/-! ## conversion + decoding, for ANY label lists that contain the names -/
+
+theorem toIds_eq (cues outs : List String) (e : Event String String) :
+    toIds cues outs e = ⟨e.cues.map (cues.idxOf ·), e.outcomes.map (outs.idxOf ·)⟩ := rfl
+
+theorem idxOf_injOn (l : List String) (a b : String) (ha : a ∈ l) (hb : b ∈ l)
+    (h : l.idxOf a = l.idxOf b) : a = b := (List.idxOf_inj ha).mp h
+
+/-- the duplicate policy sees the same thing on names and on ids: also the rejection -/
+theorem applyPolicyAll_map_none {ι κ ι' κ' : Type} [DecidableEq ι] [DecidableEq κ] [DecidableEq ι'] [DecidableEq κ']
+    (f : ι → ι') (g : κ → κ') (p : DupPolicy) (es : List (Event ι κ))
+    (hf : ∀ e ∈ es, ∀ a ∈ e.cues, ∀ b ∈ e.cues, f a = f b → a = b)
+    (hg : ∀ e ∈ es, ∀ a ∈ e.outcomes, ∀ b ∈ e.outcomes, g a = g b → a = b)
+    (h : applyPolicyAll p es = none) :
+    applyPolicyAll p (es.map (fun e => (⟨e.cues.map f, e.outcomes.map g⟩ : Event ι' κ'))) = none := by
+  obtain ⟨e, he, hpe⟩ := (applyPolicyAll_none_iff p es).mp h
+  refine (applyPolicyAll_none_iff p _).mpr ⟨_, List.mem_map.mpr ⟨e, he, rfl⟩, ?_⟩
+  rw [applyPolicy_map f g p e (hf e he) (hg e he), hpe]; rfl
+
+theorem nChunks_pos (n per : Nat) (hp : 1 ≤ per) (hn : 1 ≤ n) : 1 ≤ nChunks n per := by
+  unfold nChunks
+  exact (Nat.le_div_iff_mul_le (by omega)).mpr (by omega)
+
+/-- **the conversion stage and the kernels' reader, composed**: for label lists
+    `cues`, `outs` that contain every name of the events (any order), legal
+    chunk size and 32-bit counts, the chunk files decode to the windows of the
+    policy-processed events with names replaced by their positions -/
+theorem convert_ok (magic version : Nat) (hm : magic < 4294967296) (hv : version < 4294967296)
+    (p : DupPolicy) (per : Nat) (hper1 : 1 ≤ per) (hperU : per < 4294967296)
+    (cues outs : List String) (hnc : cues.length < 4294967296) (hno : outs.length < 4294967296)
+    (es es' : List (Event String String)) (hp : applyPolicyAll p es = some es')
+    (hmemc : ∀ e ∈ es, ∀ c ∈ e.cues, c ∈ cues) (hmemo : ∀ e ∈ es, ∀ o ∈ e.outcomes, o ∈ outs)
+    (hn : es.length < 4294967296)
+    (hpe : ∀ e ∈ es, e.cues.length < 4294967296 ∧ e.outcomes.length < 4294967296) :
+    ∃ chunks : List (List (Event Nat Nat)),
+      makeChunks magic version p (es.map (toIds cues outs)) per
+        = .ok (chunks.map (encodeChunk magic version), es.length) ∧
+      decodeAll magic version (chunks.map (encodeChunk magic version)) = .ok chunks ∧
+      chunks.flatten = es'.map (toIds cues outs) ∧
+      (es ≠ [] → chunks ≠ []) ∧
+      (∀ e' ∈ es', (∀ c ∈ e'.cues, c ∈ cues) ∧ (∀ o ∈ e'.outcomes, o ∈ outs)) := by
+  set f : String → Nat := (cues.idxOf ·) with hf
+  set g : String → Nat := (outs.idxOf ·) with hg
+  have hmap : es.map (toIds cues outs) = es.map (fun e => (⟨e.cues.map f, e.outcomes.map g⟩ : Event Nat Nat)) := rfl
+  have hmap' : es'.map (toIds cues outs) = es'.map (fun e => (⟨e.cues.map f, e.outcomes.map g⟩ : Event Nat Nat)) := rfl
+  have hpid : applyPolicyAll p (es.map (toIds cues outs)) = some (es'.map (toIds cues outs)) := by
+    rw [hmap, hmap']
+    apply applyPolicyAll_map f g p es es' _ _ hp
+    · intro e he a ha b hb hab
+      exact idxOf_injOn cues a b (hmemc e he a ha) (hmemc e he b hb) hab
+    · intro e he a ha b hb hab
+      exact idxOf_injOn outs a b (hmemo e he a ha) (hmemo e he b hb) hab
+  set ids' := es'.map (toIds cues outs) with hids'
+  have hes' : ∀ e' ∈ es', (∀ c ∈ e'.cues, c ∈ cues) ∧ (∀ o ∈ e'.outcomes, o ∈ outs) ∧
+      e'.cues.length < 4294967296 ∧ e'.outcomes.length < 4294967296 := by
+    intro e' he'
+    obtain ⟨e, he, hpe'⟩ := applyPolicyAll_mem p es es' hp e' he'
+    obtain ⟨s1, s2, s3, s4⟩ := applyPolicy_sub p e e' hpe'
+    have hb := hpe e he
+    exact ⟨fun c hc => hmemc e he c ((s1 c).mp hc), fun o ho => hmemo e he o ((s2 o).mp ho),
+      by omega, by omega⟩
+  have hlen : (es.map (toIds cues outs)).length = es.length := by simp
+  have hmk := makeChunks_ok magic version p (es.map (toIds cues outs)) ids' hpid per hper1 hperU
+  rw [hlen] at hmk
+  set chunks := (List.range (nChunks es.length per)).map (chunkOf per ids') with hchunks
+  have hfiles : (List.range (nChunks es.length per)).map
+      (fun k => encodeChunk magic version (chunkOf per ids' k)) = chunks.map (encodeChunk magic version) := by
+    rw [hchunks, List.map_map]; rfl
+  have hlen' : ids'.length = es.length := by
+    rw [hids', List.length_map]; exact applyPolicyAll_length p es es' hp
+  have hflat : chunks.flatten = ids' := by
+    rw [hchunks]
+    exact chunks_flatten ids' per hper1 _ (by rw [hlen']; exact nChunks_covers es.length per hper1)
+  have hidwf : ∀ e ∈ ids', EventWf e := by
+    intro e he
+    rw [hids'] at he
+    obtain ⟨e', he', rfl⟩ := List.mem_map.mp he
+    obtain ⟨a1, a2, a3, a4⟩ := hes' e' he'
+    refine ⟨?_, ?_, by simpa [toIds] using a3, by simpa [toIds] using a4⟩
+    · intro i hi
+      obtain ⟨c, hc, rfl⟩ := List.mem_map.mp hi
+      have := List.idxOf_lt_length_iff.mpr (a1 c hc)
+      show cues.idxOf c < 4294967296
+      omega
+    · intro i hi
+      obtain ⟨o, ho, rfl⟩ := List.mem_map.mp hi
+      have := List.idxOf_lt_length_iff.mpr (a2 o ho)
+      show outs.idxOf o < 4294967296
+      omega
+  have hchunkwf : ∀ c ∈ chunks, c.length < 4294967296 ∧ Wf32 c := by
+    intro c hc
+    have hsub : ∀ e ∈ c, e ∈ ids' := by
+      intro e he
+      rw [← hflat]; exact List.mem_flatten.mpr ⟨c, hc, he⟩
+    constructor
+    · rw [hchunks] at hc
+      obtain ⟨k, _, rfl⟩ := List.mem_map.mp hc
+      rw [length_chunkOf]
+      have : min per (ids'.length - k * per) ≤ ids'.length := by omega
+      omega
+    · intro e he; exact hidwf e (hsub e he)
+  have hdec := decodeAll_encode magic version hm hv chunks hchunkwf
+  refine ⟨chunks, by rw [hmk, hfiles], hdec, hflat, ?_, fun e' he' => ⟨(hes' e' he').1, (hes' e' he').2.1⟩⟩
+  intro hne hnil
+  have h1 : 1 ≤ es.length := by
+    cases es with
+    | nil => exact absurd rfl hne
+    | cons _ _ => simp
+  have := nChunks_pos es.length per hper1 h1
+  have hl := congrArg List.length hnil
+  rw [hchunks, List.length_map, List.length_range] at hl
+  simp at hl
+  omega
+
+end Pyndl
+
+namespace Pyndl
+open List
+
+variable {R : Type} [CommRing R]
+
+/-! ## the learner once the labels are fixed — for ANY label order and ANY order
+of the ids inside an event -/
+
+/-- `ndlCore` where, in addition, the kernels see every event through `reorder`
+    (with `remove_duplicates=True` the writer iterates over `set(cue_ids)`: the
+    order of the de-duplicated ids inside an event is hash order, not the first
+    occurrence order `dedupKeepFirst` fixes).  `ndlCore` is the instance
+    `reorder = id` (`ndlCoreWith_id`). -/
+def ndlCoreWith (reorder : Event Nat Nat → Event Nat Nat) (magic version : Nat) (cfg : NdlCfg)
+    (alpha β₁ β₂ lam : R) (cues outs : List String) (vals : Array R)
+    (es : List (Event String String)) : Except Err (LW R × Nat) :=
+  if cfg.perFile < 2 then .error .value else
+  let ids := es.map (toIds cues outs)
+  match makeChunks magic version cfg.policy ids cfg.perFile with
+  | .error e => .error e
+  | .ok (files, total) =>
+    match decodeAll magic version files with
+    | .error e => .error e
+    | .ok chunks0 =>
+      let chunks := chunks0.map (List.map reorder)
+      let allOut := List.range outs.length
+      match cfg.method with
+      | .threading =>
+        if cfg.perJob < 1 then .error .value else
+        .ok (⟨outs, cues, learnThreadingSeq alpha β₁ β₂ lam cues.length chunks allOut cfg.perJob vals⟩, total)
+      | .openmp =>
+        if 4294967296 ≤ cfg.perJob then .error .other
+        else if cfg.perJob < 1 ∧ !chunks.isEmpty then .error .other
+        else .ok (⟨outs, cues, learnOpenmpSeq32 alpha β₁ β₂ lam cues.length chunks allOut cfg.perJob vals⟩, total)
+
+theorem ndlCoreWith_id (magic version : Nat) (cfg : NdlCfg) (alpha β₁ β₂ lam : R) (cues outs : List String)
+    (vals : Array R) (es : List (Event String String)) :
+    ndlCoreWith id magic version cfg alpha β₁ β₂ lam cues outs vals es
+      = ndlCore magic version cfg alpha β₁ β₂ lam cues outs vals es := by
+  unfold ndlCoreWith ndlCore
+  simp only [List.map_id_fun, id_eq, List.map_id]
+  by_cases h : cfg.perFile < 2
+  · simp only [h, if_true]
+  · simp only [h, if_false]
+    cases makeChunks magic version cfg.policy (es.map (toIds cues outs)) cfg.perFile with
+    | error e => rfl
+    | ok r =>
+      obtain ⟨files, total⟩ := r
+      simp only
+      cases decodeAll magic version files with
+      | error e => rfl
+      | ok chunks => cases cfg.method <;> rfl
+
+/-- the chunking arguments `ndl.ndl` runs through with, for `nOut` outcome labels:
+    `2 ≤ events_per_temporary_file < 2³²`, `1 ≤ n_outcomes_per_job`, and for
+    OpenMP `nOut + n_outcomes_per_job < 2³²` (the `unsigned int` arguments and
+    part bounds of ndl_openmp.pyx). -/
+structure CfgOK (cfg : NdlCfg) (nOut : Nat) : Prop where
+  perFileLo : 2 ≤ cfg.perFile
+  perFileHi : cfg.perFile < 4294967296
+  perJobLo : 1 ≤ cfg.perJob
+  omp32 : cfg.method = .openmp → nOut + cfg.perJob < 4294967296
+
+instance (cfg : NdlCfg) (nOut : Nat) : Decidable (CfgOK cfg nOut) :=
+  decidable_of_iff (2 ≤ cfg.perFile ∧ cfg.perFile < 4294967296 ∧ 1 ≤ cfg.perJob ∧
+      (cfg.method = .openmp → nOut + cfg.perJob < 4294967296))
+    ⟨fun ⟨a, b, c, d⟩ => ⟨a, b, c, d⟩, fun ⟨a, b, c, d⟩ => ⟨a, b, c, d⟩⟩
+
+theorem CfgOK.mono {cfg : NdlCfg} {n m : Nat} (h : CfgOK cfg n) (hmn : m ≤ n) : CfgOK cfg m :=
+  ⟨h.perFileLo, h.perFileHi, h.perJobLo, fun hm => by have := h.omp32 hm; omega⟩
+
+/-- **the generic end-to-end statement.**  Label lists `cues`, `outs` in ANY order
+    that contain the names of the events; initial values `vals` denoting a weight
+    function `W` on the labels; any reordering of the ids inside each event.
+    Then the learner succeeds, labels its result with `outs`, `cues`, reports the
+    number of events, and the value at every labelled (outcome, cue) is the
+    specification continued from `W` on the policy-processed events. -/
+theorem ndlCoreWith_spec (reorder : Event Nat Nat → Event Nat Nat)
+    (hre : ∀ e, (reorder e).cues ~ e.cues ∧ (reorder e).outcomes ~ e.outcomes)
+    (magic version : Nat) (hm : magic < 4294967296) (hv : version < 4294967296)
+    (cfg : NdlCfg) (alpha β₁ β₂ lam : R) (cues outs : List String) (hcfg : CfgOK cfg outs.length)
+    (hnc : cues.length < 4294967296) (hno : outs.length < 4294967296)
+    (vals : Array R) (hsz : vals.size = cues.length * outs.length)
+    (es es' : List (Event String String)) (hp : applyPolicyAll cfg.policy es = some es')
+    (hmemc : ∀ e ∈ es, ∀ c ∈ e.cues, c ∈ cues) (hmemo : ∀ e ∈ es, ∀ o ∈ e.outcomes, o ∈ outs)
+    (hn : es.length < 4294967296)
+    (hpe : ∀ e ∈ es, e.cues.length < 4294967296 ∧ e.outcomes.length < 4294967296)
+    (W : String → String → R)
+    (hW : ∀ o c, o ∈ outs → c ∈ cues → rowFn cues.length vals (outs.idxOf o) (cues.idxOf c) = W o c) :
+    ∃ vals', ndlCoreWith reorder magic version cfg alpha β₁ β₂ lam cues outs vals es
+        = .ok (⟨outs, cues, vals'⟩, es.length) ∧
+      ∀ o c, o ∈ outs → c ∈ cues →
+        (LW.get ⟨outs, cues, vals'⟩ o c : R) = rwLearn (fun _ => alpha) β₁ β₂ lam W es' o c := by
+  obtain ⟨hper, hperU, hjob, h32⟩ := hcfg
+  obtain ⟨chunks0, hmk, hdec, hflat, _, hes'⟩ := convert_ok magic version hm hv cfg.policy cfg.perFile
+    (by omega) hperU cues outs hnc hno es es' hp hmemc hmemo hn hpe
+  set f : String → Nat := (cues.idxOf ·) with hf
+  set g : String → Nat := (outs.idxOf ·) with hg
+  set ids' := es'.map (toIds cues outs) with hids'
+  set chunks := chunks0.map (List.map reorder) with hchunks
+  have hflatR : chunks.flatten = ids'.map reorder := by
+    rw [hchunks, ← List.map_flatten, hflat]
+  set n := cues.length with hn'
+  set nOut := outs.length with hnOut
+  have hw0 : vals.size = n * nOut := hsz
+  have hcuesok : ∀ e ∈ chunks.flatten, ∀ c ∈ e.cues, c < n := by
+    intro e he c hc
+    rw [hflatR] at he
+    obtain ⟨e0, he0, rfl⟩ := List.mem_map.mp he
+    have hc0 : c ∈ e0.cues := (hre e0).1.mem_iff.mp hc
+    rw [hids'] at he0
+    obtain ⟨e', he', rfl⟩ := List.mem_map.mp he0
+    obtain ⟨c', hc', rfl⟩ := List.mem_map.mp hc0
+    exact List.idxOf_lt_length_iff.mpr ((hes' e' he').1 c' hc')
+  have hrows : ∀ o ∈ List.range nOut, o < nOut := fun o ho => List.mem_range.mp ho
+  let vals' : Array R := match cfg.method with
+    | .threading => learnThreadingSeq alpha β₁ β₂ lam n chunks (List.range nOut) cfg.perJob vals
+    | .openmp => learnOpenmpSeq32 alpha β₁ β₂ lam n chunks (List.range nOut) cfg.perJob vals
+  have hrow : ∀ i, i < nOut →
+      rowFn n vals' i = rwLearn (fun _ => alpha) β₁ β₂ lam (fun o => rowFn n vals o) ids' i := by
+    intro i hi
+    show rowFn n (match cfg.method with
+      | .threading => learnThreadingSeq alpha β₁ β₂ lam n chunks (List.range nOut) cfg.perJob vals
+      | .openmp => learnOpenmpSeq32 alpha β₁ β₂ lam n chunks (List.range nOut) cfg.perJob vals) i = _
+    cases hmeth : cfg.method with
+    | threading =>
+      simp only
+      rw [learnThreadingSeq_eq_spec alpha β₁ β₂ lam n nOut chunks (List.range nOut) cfg.perJob hjob
+        List.nodup_range hrows hcuesok _ hw0 i (List.mem_range.mpr hi), hflatR,
+        rwLearn_map_reorder _ _ _ _ _ reorder hre]
+    | openmp =>
+      simp only
+      rw [learnOpenmpSeq32_eq alpha β₁ β₂ lam n chunks (List.range nOut) cfg.perJob hjob
+        (by rw [List.length_range]; exact h32 hmeth),
+        learnOpenmpSeq_eq_spec alpha β₁ β₂ lam n nOut chunks (List.range nOut) cfg.perJob hjob
+        List.nodup_range hrows hcuesok _ hw0 i (List.mem_range.mpr hi), hflatR,
+        rwLearn_map_reorder _ _ _ _ _ reorder hre]
+  refine ⟨vals', ?_, ?_⟩
+  · unfold ndlCoreWith
+    have h1 : ¬ cfg.perFile < 2 := by omega
+    have h2 : ¬ cfg.perJob < 1 := by omega
+    simp only [h1, if_false, hmk, hdec]
+    show (match cfg.method with
+      | .threading => _
+      | .openmp => _) = _
+    cases hmeth : cfg.method with
+    | threading =>
+      simp only [h2, if_false]
+      show Except.ok _ = Except.ok _
+      congr 3
+      show _ = (match cfg.method with
+        | .threading => learnThreadingSeq alpha β₁ β₂ lam n chunks (List.range nOut) cfg.perJob vals
+        | .openmp => learnOpenmpSeq32 alpha β₁ β₂ lam n chunks (List.range nOut) cfg.perJob vals)
+      rw [hmeth]
+    | openmp =>
+      have h3 : ¬ 4294967296 ≤ cfg.perJob := by have := h32 hmeth; omega
+      simp only [h3, h2, if_false, false_and]
+      show Except.ok _ = Except.ok _
+      congr 3
+      show _ = (match cfg.method with
+        | .threading => learnThreadingSeq alpha β₁ β₂ lam n chunks (List.range nOut) cfg.perJob vals
+        | .openmp => learnOpenmpSeq32 alpha β₁ β₂ lam n chunks (List.range nOut) cfg.perJob vals)
+      rw [hmeth]
+  · intro o c ho hc
+    have hi : outs.idxOf o < nOut := List.idxOf_lt_length_iff.mpr ho
+    have hj : cues.idxOf c < n := List.idxOf_lt_length_iff.mpr hc
+    have hget : (LW.get ⟨outs, cues, vals'⟩ o c : R) = rowFn n vals' (outs.idxOf o) (cues.idxOf c) := by
+      unfold LW.get rowFn flatIdx
+      have hi' : outs.idxOf o < outs.length := hi
+      have hj' : cues.idxOf c < cues.length := hj
+      simp only [hj]
+      rw [if_pos ⟨hi', hj'⟩, if_pos trivial, Nat.mul_comm]
+    rw [hget, hrow _ hi, hids']
+    exact rwLearn_rename_on f g (· ∈ cues) (· ∈ outs)
+      (fun a b ha hb h => idxOf_injOn cues a b ha hb h)
+      (fun a b ha hb h => idxOf_injOn outs a b ha hb h)
+      alpha β₁ β₂ lam W (fun i j => rowFn n vals i j) es'
+      (fun e he => hes' e he) (fun o c ho hc => hW o c ho hc) o c ho hc
+
+end Pyndl
+
+namespace Pyndl
+open List
+
+variable {R : Type} [CommRing R]
+
+/-- `ndlCoreWith_spec` for the model itself (`reorder = id`) -/
+theorem ndlCore_spec (magic version : Nat) (hm : magic < 4294967296) (hv : version < 4294967296)
+    (cfg : NdlCfg) (alpha β₁ β₂ lam : R) (cues outs : List String) (hcfg : CfgOK cfg outs.length)
+    (hnc : cues.length < 4294967296) (hno : outs.length < 4294967296)
+    (vals : Array R) (hsz : vals.size = cues.length * outs.length)
+    (es es' : List (Event String String)) (hp : applyPolicyAll cfg.policy es = some es')
+    (hmemc : ∀ e ∈ es, ∀ c ∈ e.cues, c ∈ cues) (hmemo : ∀ e ∈ es, ∀ o ∈ e.outcomes, o ∈ outs)
+    (hn : es.length < 4294967296)
+    (hpe : ∀ e ∈ es, e.cues.length < 4294967296 ∧ e.outcomes.length < 4294967296)
+    (W : String → String → R)
+    (hW : ∀ o c, o ∈ outs → c ∈ cues → rowFn cues.length vals (outs.idxOf o) (cues.idxOf c) = W o c) :
+    ∃ vals', ndlCore magic version cfg alpha β₁ β₂ lam cues outs vals es
+        = .ok (⟨outs, cues, vals'⟩, es.length) ∧
+      ∀ o c, o ∈ outs → c ∈ cues →
+        (LW.get ⟨outs, cues, vals'⟩ o c : R) = rwLearn (fun _ => alpha) β₁ β₂ lam W es' o c := by
+  rw [← ndlCoreWith_id]
+  exact ndlCoreWith_spec id (fun e => ⟨List.Perm.refl _, List.Perm.refl _⟩) magic version hm hv cfg
+    alpha β₁ β₂ lam cues outs hcfg hnc hno vals hsz es es' hp hmemc hmemo hn hpe W hW
+
+/-! ### the error branches of `ndlCore` -/
+
+/-- `events_per_temporary_file ≥ 2³²` ⇒ `OverflowError` — for every event file
+    (empty included), labels, method, policy -/
+theorem ndlCore_perFile_overflow (magic version : Nat) (cfg : NdlCfg) (alpha β₁ β₂ lam : R)
+    (cues outs : List String) (vals : Array R) (es : List (Event String String))
+    (h : 4294967296 ≤ cfg.perFile) :
+    ndlCore magic version cfg alpha β₁ β₂ lam cues outs vals es = .error .other := by
+  unfold ndlCore
+  have h1 : ¬ cfg.perFile < 2 := by omega
+  simp only [h1, if_false, makeChunks_overflow _ _ _ _ _ h]
+
+/-- `events_per_temporary_file < 2` ⇒ `ValueError` -/
+theorem ndlCore_perFile_small (magic version : Nat) (cfg : NdlCfg) (alpha β₁ β₂ lam : R)
+    (cues outs : List String) (vals : Array R) (es : List (Event String String))
+    (h : cfg.perFile < 2) :
+    ndlCore magic version cfg alpha β₁ β₂ lam cues outs vals es = .error .value := by
+  unfold ndlCore
+  rw [if_pos h]
+
+/-- **a duplicate the policy rejects, anywhere in the file ⇒ `ValueError`** — every
+    method, chunk sizes (legal `events_per_temporary_file`), labels that contain
+    the names, initial values -/
+theorem ndlCore_dup_raises (magic version : Nat) (cfg : NdlCfg) (alpha β₁ β₂ lam : R)
+    (cues outs : List String) (vals : Array R) (es : List (Event String String))
+    (hper : 2 ≤ cfg.perFile) (hperU : cfg.perFile < 4294967296)
+    (hmemc : ∀ e ∈ es, ∀ c ∈ e.cues, c ∈ cues) (hmemo : ∀ e ∈ es, ∀ o ∈ e.outcomes, o ∈ outs)
+    (h : applyPolicyAll cfg.policy es = none) :
+    ndlCore magic version cfg alpha β₁ β₂ lam cues outs vals es = .error .value := by
+  have hid : applyPolicyAll cfg.policy (es.map (toIds cues outs)) = none :=
+    applyPolicyAll_map_none (cues.idxOf ·) (outs.idxOf ·) cfg.policy es
+      (fun e he a ha b hb hab => idxOf_injOn cues a b (hmemc e he a ha) (hmemc e he b hb) hab)
+      (fun e he a ha b hb hab => idxOf_injOn outs a b (hmemo e he a ha) (hmemo e he b hb) hab) h
+  unfold ndlCore
+  have h1 : ¬ cfg.perFile < 2 := by omega
+  simp only [h1, if_false, makeChunks_error magic version cfg.policy _ cfg.perFile (by omega) hperU hid]
+
+/-- **illegal `n_outcomes_per_job`**, after a conversion that went through:
+    threading, `< 1`: `ValueError` (`slice_list`); OpenMP, `≥ 2³²`:
+    `OverflowError` (`unsigned int chunksize`); OpenMP, `0` and at least one
+    event: `ZeroDivisionError` (`.other`) -/
+theorem ndlCore_perJob_errors (magic version : Nat) (hm : magic < 4294967296) (hv : version < 4294967296)
+    (cfg : NdlCfg) (alpha β₁ β₂ lam : R) (cues outs : List String)
+    (hper : 2 ≤ cfg.perFile) (hperU : cfg.perFile < 4294967296)
+    (hnc : cues.length < 4294967296) (hno : outs.length < 4294967296) (vals : Array R)
+    (es es' : List (Event String String)) (hp : applyPolicyAll cfg.policy es = some es')
+    (hmemc : ∀ e ∈ es, ∀ c ∈ e.cues, c ∈ cues) (hmemo : ∀ e ∈ es, ∀ o ∈ e.outcomes, o ∈ outs)
+    (hn : es.length < 4294967296)
+    (hpe : ∀ e ∈ es, e.cues.length < 4294967296 ∧ e.outcomes.length < 4294967296) :
+    (cfg.method = .threading → cfg.perJob < 1 →
+      ndlCore magic version cfg alpha β₁ β₂ lam cues outs vals es = .error .value) ∧
+    (cfg.method = .openmp → 4294967296 ≤ cfg.perJob →
+      ndlCore magic version cfg alpha β₁ β₂ lam cues outs vals es = .error .other) ∧
+    (cfg.method = .openmp → cfg.perJob < 1 → es ≠ [] →
+      ndlCore magic version cfg alpha β₁ β₂ lam cues outs vals es = .error .other) := by
+  obtain ⟨chunks, hmk, hdec, _, hne, _⟩ := convert_ok magic version hm hv cfg.policy cfg.perFile
+    (by omega) hperU cues outs hnc hno es es' hp hmemc hmemo hn hpe
+  have h1 : ¬ cfg.perFile < 2 := by omega
+  refine ⟨?_, ?_, ?_⟩
+  · intro hmeth hj
+    unfold ndlCore
+    simp only [h1, if_false, hmk, hdec, hmeth, hj, if_true]
+  · intro hmeth hj
+    unfold ndlCore
+    simp only [h1, if_false, hmk, hdec, hmeth, hj, if_true]
+  · intro hmeth hj hes
+    have hj2 : ¬ 4294967296 ≤ cfg.perJob := by omega
+    have hce : chunks.isEmpty = false := by
+      cases hc : chunks with
+      | nil => exact absurd hc (hne hes)
+      | cons _ _ => rfl
+    unfold ndlCore
+    simp only [h1, if_false, hmk, hdec, hmeth, hj, hj2, hce, Bool.not_false, and_self, if_true]
+
+end Pyndl
+
+namespace Pyndl
+open List
+
+variable {R : Type} [CommRing R]
+
 /-- size side conditions of the 32-bit chunk format and of the shape guard of
     `ndl.ndl` (it raises ValueError / OverflowError outside) -/
 structure Fits32 (es : List (Event String String)) : Prop where
@@ -476,9 +1113,6 @@ theorem rowFn_replicate_zero (n k o : Nat) : rowFn n (Array.replicate k (0 : R))
     · simp [h]
   · rfl
 
-theorem toIds_eq (cues outs : List String) (e : Event String String) :
-    toIds cues outs e = ⟨e.cues.map (cues.idxOf ·), e.outcomes.map (outs.idxOf ·)⟩ := rfl
-
 theorem countNames_mem (es : List (Event String String)) (e : Event String String) (he : e ∈ es) :
     (∀ c ∈ e.cues, c ∈ (countNames es).1) ∧ (∀ o ∈ e.outcomes, o ∈ (countNames es).2) := by
   unfold countNames
@@ -488,161 +1122,164 @@ theorem countNames_mem (es : List (Event String String)) (e : Event String Strin
   · intro o ho
     exact (mem_dedupKeepFirst _ o).mpr (List.mem_flatMap.mpr ⟨e, he, ho⟩)
 
-theorem idxOf_injOn (l : List String) (a b : String) (ha : a ∈ l) (hb : b ∈ l)
-    (h : l.idxOf a = l.idxOf b) : a = b := (List.idxOf_inj ha).mp h
+/-- from scratch, `ndlModel` is `ndlCore` on the counted names and zeros -/
+theorem ndlModel_none (magic version : Nat) (cfg : NdlCfg) (alpha β₁ β₂ lam : R)
+    (es : List (Event String String)) :
+    ndlModel magic version cfg alpha β₁ β₂ lam none es
+      = ndlCore magic version cfg alpha β₁ β₂ lam (countNames es).1 (countNames es).2
+          (Array.replicate ((countNames es).2.length * (countNames es).1.length) 0) es := by
+  unfold ndlModel
+  rcases countNames es with ⟨cues, outs⟩
+  rfl
+
+/-- with `weights=`, `ndlModel` is `ndlCore` on the merged labels and the
+    zero-extended values -/
+theorem ndlModel_some (magic version : Nat) (cfg : NdlCfg) (alpha β₁ β₂ lam : R) (w : LW R)
+    (es : List (Event String String)) :
+    ndlModel magic version cfg alpha β₁ β₂ lam (some w) es
+      = ndlCore magic version cfg alpha β₁ β₂ lam
+          (w.cues ++ (countNames es).1.filter (fun c => !w.cues.contains c))
+          (w.outcomes ++ (countNames es).2.filter (fun o => !w.outcomes.contains o))
+          (extendVals w.vals w.outcomes.length w.cues.length
+            (w.outcomes ++ (countNames es).2.filter (fun o => !w.outcomes.contains o)).length
+            (w.cues ++ (countNames es).1.filter (fun c => !w.cues.contains c)).length) es := by
+  unfold ndlModel
+  rcases countNames es with ⟨cues, outs⟩
+  rfl
 
 /-- **`ndl.ndl` = specification, end to end** (training from scratch): for every
-    event list the duplicate policy accepts, every method, every
-    `n_outcomes_per_job ≥ 1`, every `events_per_temporary_file ≥ 2`, the model
-    of `ndl.ndl` — counting, id maps, duplicate policy on ids, binary chunk
-    files (encode, numeric order, kernel reader), kernels per part, labelling —
-    returns a labelled matrix whose value at EVERY (outcome name, cue name) is
-    the Rescorla–Wagner specification on the policy-processed events, and
-    reports the number of events. -/
+    event list the duplicate policy accepts, every method, and chunking arguments
+    `CfgOK` (`2 ≤ events_per_temporary_file < 2³²`, `1 ≤ n_outcomes_per_job`,
+    OpenMP: `n_outcomes + n_outcomes_per_job < 2³²`), the model of `ndl.ndl` —
+    counting, id maps, duplicate policy on ids, binary chunk files (encode,
+    numeric order, kernel reader), kernels per part (OpenMP: in 32-bit
+    arithmetic), labelling — returns a labelled matrix whose value at EVERY
+    (outcome name, cue name) is the Rescorla–Wagner specification on the
+    policy-processed events, and reports the number of events. -/
 theorem ndlModel_eq_spec (magic version : Nat) (hm : magic < 4294967296) (hv : version < 4294967296)
-    (cfg : NdlCfg) (hper : 2 ≤ cfg.perFile) (hjob : 1 ≤ cfg.perJob) (alpha β₁ β₂ lam : R)
-    (es es' : List (Event String String)) (hp : applyPolicyAll cfg.policy es = some es') (hfit : Fits32 es) :
+    (cfg : NdlCfg) (alpha β₁ β₂ lam : R) (es es' : List (Event String String))
+    (hcfg : CfgOK cfg (countNames es).2.length)
+    (hp : applyPolicyAll cfg.policy es = some es') (hfit : Fits32 es) :
     ∃ w, ndlModel magic version cfg alpha β₁ β₂ lam none es = .ok (w, es.length) ∧
       ∀ o c, w.get o c = rwLearn (fun _ => alpha) β₁ β₂ lam (fun _ _ => (0 : R)) es' o c := by
-  -- names and ids
-  rcases hcn : countNames es with ⟨cues, outs⟩
-  have hmemc : ∀ e ∈ es, ∀ c ∈ e.cues, c ∈ cues := fun e he c hc => by
-    have := (countNames_mem es e he).1 c hc; rw [hcn] at this; exact this
-  have hmemo : ∀ e ∈ es, ∀ o ∈ e.outcomes, o ∈ outs := fun e he o ho => by
-    have := (countNames_mem es e he).2 o ho; rw [hcn] at this; exact this
-  have hnc : cues.length < 4294967296 := by have := hfit.nCues; rw [hcn] at this; exact this
-  have hno : outs.length < 4294967296 := by have := hfit.nOuts; rw [hcn] at this; exact this
-  have hndo : outs.Nodup := by
-    have : outs = (countNames es).2 := by rw [hcn]
-    rw [this]; exact nodup_dedupKeepFirst _
-  set f : String → Nat := (cues.idxOf ·) with hf
-  set g : String → Nat := (outs.idxOf ·) with hg
-  have hmap : es.map (toIds cues outs) = es.map (fun e => (⟨e.cues.map f, e.outcomes.map g⟩ : Event Nat Nat)) := rfl
-  -- policy on ids
-  have hpid : applyPolicyAll cfg.policy (es.map (toIds cues outs))
-      = some (es'.map (fun e => (⟨e.cues.map f, e.outcomes.map g⟩ : Event Nat Nat))) := by
-    rw [hmap]
-    apply applyPolicyAll_map f g cfg.policy es es' _ _ hp
-    · intro e he a ha b hb hab
-      exact idxOf_injOn cues a b (hmemc e he a ha) (hmemc e he b hb) hab
-    · intro e he a ha b hb hab
-      exact idxOf_injOn outs a b (hmemo e he a ha) (hmemo e he b hb) hab
-  set ids' := es'.map (fun e => (⟨e.cues.map f, e.outcomes.map g⟩ : Event Nat Nat)) with hids'
-  -- members of es' come from members of es
-  have hes' : ∀ e' ∈ es', (∀ c ∈ e'.cues, c ∈ cues) ∧ (∀ o ∈ e'.outcomes, o ∈ outs) ∧
-      e'.cues.length < 4294967296 ∧ e'.outcomes.length < 4294967296 := by
+  rw [ndlModel_none]
+  set cues := (countNames es).1 with hcues
+  set outs := (countNames es).2 with houts
+  have hmemc : ∀ e ∈ es, ∀ c ∈ e.cues, c ∈ cues := fun e he c hc => (countNames_mem es e he).1 c hc
+  have hmemo : ∀ e ∈ es, ∀ o ∈ e.outcomes, o ∈ outs := fun e he o ho => (countNames_mem es e he).2 o ho
+  obtain ⟨vals', hrun, hget⟩ := ndlCore_spec magic version hm hv cfg alpha β₁ β₂ lam cues outs hcfg
+    hfit.nCues hfit.nOuts (Array.replicate (outs.length * cues.length) 0) (by simp [Nat.mul_comm])
+    es es' hp hmemc hmemo hfit.nEvents hfit.perEvent (fun _ _ => 0)
+    (fun o c _ _ => by rw [rowFn_replicate_zero])
+  have hes' : ∀ e' ∈ es', (∀ c ∈ e'.cues, c ∈ cues) ∧ (∀ o ∈ e'.outcomes, o ∈ outs) := by
     intro e' he'
     obtain ⟨e, he, hpe⟩ := applyPolicyAll_mem cfg.policy es es' hp e' he'
-    obtain ⟨s1, s2, s3, s4⟩ := applyPolicy_sub cfg.policy e e' hpe
-    have hb := hfit.perEvent e he
-    exact ⟨fun c hc => hmemc e he c ((s1 c).mp hc), fun o ho => hmemo e he o ((s2 o).mp ho),
-      by omega, by omega⟩
-  -- conversion + decoding
-  have hper1 : 1 ≤ cfg.perFile := by omega
-  have hlen : (es.map (toIds cues outs)).length = es.length := by simp
-  have hmk := makeChunks_ok magic version cfg.policy (es.map (toIds cues outs)) ids' hpid cfg.perFile hper1
-  rw [hlen] at hmk
-  set chunks := (List.range (nChunks es.length cfg.perFile)).map (chunkOf cfg.perFile ids') with hchunks
-  have hfiles : (List.range (nChunks es.length cfg.perFile)).map
-      (fun k => encodeChunk magic version (chunkOf cfg.perFile ids' k)) = chunks.map (encodeChunk magic version) := by
-    rw [hchunks, List.map_map]; rfl
-  have hlen' : ids'.length = es.length := by
-    rw [hids', List.length_map]; exact applyPolicyAll_length cfg.policy es es' hp
-  have hflat : chunks.flatten = ids' := by
-    rw [hchunks]
-    exact chunks_flatten ids' cfg.perFile hper1 _ (by rw [hlen']; exact nChunks_covers es.length cfg.perFile hper1)
-  have hidwf : ∀ e ∈ ids', EventWf e ∧ (∀ c ∈ e.cues, c < cues.length) := by
-    intro e he
-    rw [hids'] at he
-    obtain ⟨e', he', rfl⟩ := List.mem_map.mp he
-    obtain ⟨a1, a2, a3, a4⟩ := hes' e' he'
-    refine ⟨⟨?_, ?_, by simpa using a3, by simpa using a4⟩, ?_⟩
-    · intro i hi
-      obtain ⟨c, hc, rfl⟩ := List.mem_map.mp hi
-      have := List.idxOf_lt_length_iff.mpr (a1 c hc)
-      show cues.idxOf c < 4294967296
-      omega
-    · intro i hi
-      obtain ⟨o, ho, rfl⟩ := List.mem_map.mp hi
-      have := List.idxOf_lt_length_iff.mpr (a2 o ho)
-      show outs.idxOf o < 4294967296
-      omega
-    · intro i hi
-      obtain ⟨c, hc, rfl⟩ := List.mem_map.mp hi
-      exact List.idxOf_lt_length_iff.mpr (a1 c hc)
-  have hchunkwf : ∀ c ∈ chunks, c.length < 4294967296 ∧ Wf32 c := by
-    intro c hc
-    have hsub : ∀ e ∈ c, e ∈ ids' := by
-      intro e he
-      rw [← hflat]; exact List.mem_flatten.mpr ⟨c, hc, he⟩
-    constructor
-    · rw [hchunks] at hc
-      obtain ⟨k, _, rfl⟩ := List.mem_map.mp hc
-      rw [length_chunkOf]
-      have := hfit.nEvents
-      have : min cfg.perFile (ids'.length - k * cfg.perFile) ≤ ids'.length := by omega
-      omega
-    · intro e he; exact (hidwf e (hsub e he)).1
-  have hdec := decodeAll_encode magic version hm hv chunks hchunkwf
-  -- learning
-  set n := cues.length with hn
-  set nOut := outs.length with hnOut
-  have hw0 : (Array.replicate (nOut * n) (0 : R)).size = n * nOut := by simp [Nat.mul_comm]
-  have hcuesok : ∀ e ∈ chunks.flatten, ∀ c ∈ e.cues, c < n := by
-    intro e he; rw [hflat] at he; exact (hidwf e he).2
-  have hrows : ∀ o ∈ List.range nOut, o < nOut := fun o ho => List.mem_range.mp ho
-  -- unfold the model
-  let vals' : Array R := match cfg.method with
-    | .threading => learnThreadingSeq alpha β₁ β₂ lam n chunks (List.range nOut) cfg.perJob (Array.replicate (nOut * n) 0)
-    | .openmp => learnOpenmpSeq alpha β₁ β₂ lam n chunks (List.range nOut) cfg.perJob (Array.replicate (nOut * n) 0)
-  have hrow : ∀ i, i < nOut →
-      rowFn n vals' i = rwLearn (fun _ => alpha) β₁ β₂ lam (fun _ _ => (0 : R)) ids' i := by
-    intro i hi
-    have hz : (fun o => rowFn n (Array.replicate (nOut * n) (0 : R)) o) = fun _ _ => (0 : R) := by
-      funext o; exact rowFn_replicate_zero n _ o
-    show rowFn n (match cfg.method with
-      | .threading => learnThreadingSeq alpha β₁ β₂ lam n chunks (List.range nOut) cfg.perJob (Array.replicate (nOut * n) 0)
-      | .openmp => learnOpenmpSeq alpha β₁ β₂ lam n chunks (List.range nOut) cfg.perJob (Array.replicate (nOut * n) 0)) i = _
-    cases cfg.method with
-    | threading =>
-      simp only
-      rw [learnThreadingSeq_eq_spec alpha β₁ β₂ lam n nOut chunks (List.range nOut) cfg.perJob hjob
-        List.nodup_range hrows hcuesok _ hw0 i (List.mem_range.mpr hi), hflat, hz]
-    | openmp =>
-      simp only
-      rw [learnOpenmpSeq_eq_spec alpha β₁ β₂ lam n nOut chunks (List.range nOut) cfg.perJob hjob
-        List.nodup_range hrows hcuesok _ hw0 i (List.mem_range.mpr hi), hflat, hz]
-  refine ⟨⟨outs, cues, vals'⟩, ?_, ?_⟩
-  · unfold ndlModel
-    simp only [hcn]
-    have h1 : ¬ cfg.perFile < 2 := by omega
-    have h2 : ¬ cfg.perJob < 1 := by omega
-    simp only [h1, if_false, hmk, hfiles, hdec, h2]
-    show Except.ok _ = Except.ok _
-    congr 2
-  · intro o c
-    by_cases ho : o ∈ outs
-    · by_cases hc : c ∈ cues
-      · have hi : outs.idxOf o < nOut := List.idxOf_lt_length_iff.mpr ho
-        have hj : cues.idxOf c < n := List.idxOf_lt_length_iff.mpr hc
-        have hget : (LW.get ⟨outs, cues, vals'⟩ o c : R) = rowFn n vals' (outs.idxOf o) (cues.idxOf c) := by
-          unfold LW.get rowFn flatIdx
-          have hi' : outs.idxOf o < outs.length := hi
-          have hj' : cues.idxOf c < cues.length := hj
-          simp only [hj]
-          rw [if_pos ⟨hi', hj'⟩, if_pos trivial, Nat.mul_comm]
-        rw [hget, hrow _ hi, hids']
-        exact rwLearn_rename_on f g (· ∈ cues) (· ∈ outs)
-          (fun a b ha hb h => idxOf_injOn cues a b ha hb h)
-          (fun a b ha hb h => idxOf_injOn outs a b ha hb h)
-          alpha β₁ β₂ lam (fun _ _ => 0) (fun _ _ => 0) es'
-          (fun e he => ⟨(hes' e he).1, (hes' e he).2.1⟩) (fun _ _ _ _ => rfl) o c ho hc
-      · rw [LW.get_not_cue _ o c hc, rwLearn_unseen_cue]
-        intro e he hce
-        exact hc ((hes' e he).1 c hce)
-    · rw [LW.get_not_outcome _ o c ho]
-      have := rwLearn_unseen_outcome (fun _ => alpha) β₁ β₂ lam (fun _ _ => (0 : R)) es' o
-        (fun e he hoe => ho ((hes' e he).2.1 o hoe)) rfl
-      rw [this]
+    obtain ⟨s1, s2, _, _⟩ := applyPolicy_sub cfg.policy e e' hpe
+    exact ⟨fun c hc => hmemc e he c ((s1 c).mp hc), fun o ho => hmemo e he o ((s2 o).mp ho)⟩
+  refine ⟨⟨outs, cues, vals'⟩, hrun, ?_⟩
+  intro o c
+  by_cases ho : o ∈ outs
+  · by_cases hc : c ∈ cues
+    · exact hget o c ho hc
+    · rw [LW.get_not_cue _ o c hc, rwLearn_unseen_cue]
+      intro e he hce
+      exact hc ((hes' e he).1 c hce)
+  · rw [LW.get_not_outcome _ o c ho]
+    have := rwLearn_unseen_outcome (fun _ => alpha) β₁ β₂ lam (fun _ _ => (0 : R)) es' o
+      (fun e he hoe => ho ((hes' e he).2 o hoe)) rfl
+    rw [this]
+
+/-- the labels of a result of `ndlCore` are the label lists it was given -/
+theorem ndlCore_labels (magic version : Nat) (cfg : NdlCfg) (alpha β₁ β₂ lam : R) (cues outs : List String)
+    (vals : Array R) (es : List (Event String String)) (r : LW R) (n : Nat)
+    (h : ndlCore magic version cfg alpha β₁ β₂ lam cues outs vals es = .ok (r, n)) :
+    r.cues = cues ∧ r.outcomes = outs := by
+  unfold ndlCore at h
+  by_cases h1 : cfg.perFile < 2
+  · simp only [h1, if_true] at h; cases h
+  · simp only [h1, if_false] at h
+    cases hmk : makeChunks magic version cfg.policy (es.map (toIds cues outs)) cfg.perFile with
+    | error e => simp only [hmk] at h; cases h
+    | ok ft =>
+      obtain ⟨files, total⟩ := ft
+      simp only [hmk] at h
+      cases hdec : decodeAll magic version files with
+      | error e => simp only [hdec] at h; cases h
+      | ok chunks =>
+        simp only [hdec] at h
+        cases hmeth : cfg.method with
+        | threading =>
+          simp only [hmeth] at h
+          split at h
+          · cases h
+          · simp only [Except.ok.injEq, Prod.mk.injEq] at h
+            obtain ⟨h, _⟩ := h
+            subst h
+            exact ⟨rfl, rfl⟩
+        | openmp =>
+          simp only [hmeth] at h
+          split at h
+          · cases h
+          · split at h
+            · cases h
+            · simp only [Except.ok.injEq, Prod.mk.injEq] at h
+              obtain ⟨h, _⟩ := h
+              subst h
+              exact ⟨rfl, rfl⟩
+
+/-! ### error directions for `ndl.ndl` from scratch and continued -/
+
+/-- **`events_per_temporary_file ≥ 2³²` ⇒ `OverflowError`**: for EVERY event file
+    (zero events included), with or without `weights=`, every method and policy -/
+theorem ndlModel_perFile_overflow (magic version : Nat) (cfg : NdlCfg) (alpha β₁ β₂ lam : R)
+    (W0 : Option (LW R)) (es : List (Event String String)) (h : 4294967296 ≤ cfg.perFile) :
+    ndlModel magic version cfg alpha β₁ β₂ lam W0 es = .error .other := by
+  cases W0 with
+  | none => rw [ndlModel_none]; exact ndlCore_perFile_overflow _ _ _ _ _ _ _ _ _ _ _ h
+  | some w => rw [ndlModel_some]; exact ndlCore_perFile_overflow _ _ _ _ _ _ _ _ _ _ _ h
+
+theorem mem_append_filter_new (old new : List String) (x : String) (h : x ∈ new) :
+    x ∈ old ++ new.filter (fun c => !old.contains c) := by
+  by_cases ho : x ∈ old
+  · exact List.mem_append_left _ ho
+  · apply List.mem_append_right
+    rw [List.mem_filter]
+    refine ⟨h, ?_⟩
+    simp [ho]
+
+/-- **`remove_duplicates=None` (or any policy that rejects): a repeated cue or
+    outcome ANYWHERE in the file ⇒ `ValueError`** — every method, every
+    `n_outcomes_per_job` (legal or not: the conversion comes first), every legal
+    `events_per_temporary_file`, with or without initial weights -/
+theorem ndlModel_dup_raises (magic version : Nat) (cfg : NdlCfg) (alpha β₁ β₂ lam : R)
+    (W0 : Option (LW R)) (es : List (Event String String))
+    (hper : 2 ≤ cfg.perFile) (hperU : cfg.perFile < 4294967296)
+    (h : applyPolicyAll cfg.policy es = none) :
+    ndlModel magic version cfg alpha β₁ β₂ lam W0 es = .error .value := by
+  cases W0 with
+  | none =>
+    rw [ndlModel_none]
+    exact ndlCore_dup_raises _ _ _ _ _ _ _ _ _ _ _ hper hperU
+      (fun e he c hc => (countNames_mem es e he).1 c hc) (fun e he o ho => (countNames_mem es e he).2 o ho) h
+  | some w =>
+    rw [ndlModel_some]
+    exact ndlCore_dup_raises _ _ _ _ _ _ _ _ _ _ _ hper hperU
+      (fun e he c hc => mem_append_filter_new _ _ _ ((countNames_mem es e he).1 c hc))
+      (fun e he o ho => mem_append_filter_new _ _ _ ((countNames_mem es e he).2 o ho)) h
+
+/-- **illegal `n_outcomes_per_job`** (from scratch; conversion went through) -/
+theorem ndlModel_perJob_errors (magic version : Nat) (hm : magic < 4294967296) (hv : version < 4294967296)
+    (cfg : NdlCfg) (alpha β₁ β₂ lam : R) (hper : 2 ≤ cfg.perFile) (hperU : cfg.perFile < 4294967296)
+    (es es' : List (Event String String)) (hp : applyPolicyAll cfg.policy es = some es') (hfit : Fits32 es) :
+    (cfg.method = .threading → cfg.perJob < 1 →
+      ndlModel magic version cfg alpha β₁ β₂ lam none es = .error .value) ∧
+    (cfg.method = .openmp → 4294967296 ≤ cfg.perJob →
+      ndlModel magic version cfg alpha β₁ β₂ lam none es = .error .other) ∧
+    (cfg.method = .openmp → cfg.perJob < 1 → es ≠ [] →
+      ndlModel magic version cfg alpha β₁ β₂ lam none es = .error .other) := by
+  rw [ndlModel_none]
+  exact ndlCore_perJob_errors magic version hm hv cfg alpha β₁ β₂ lam _ _ hper hperU hfit.nCues hfit.nOuts _
+    es es' hp (fun e he c hc => (countNames_mem es e he).1 c hc)
+    (fun e he o ho => (countNames_mem es e he).2 o ho) hfit.nEvents hfit.perEvent
 
 end Pyndl
